@@ -16,7 +16,7 @@ def asan(scale=10, tiers=("thorough",)):
     return {"name": "asan", "flavour": "asan", "scale": scale, "tiers": tiers}
 
 
-def miri(mode="miri", nshards=16, tiers=("quick", "thorough"), flags="-Zmiri-disable-isolation", scale=100, timeout=3000):
+def miri(mode="miri", nshards=16, tiers=("quick", "thorough"), flags="-Zmiri-disable-isolation", scale=100, timeout=1500):
     return {"name": "miri", "flavour": "miri", "mode": mode, "nshards": nshards, "tiers": tiers,
             "miriflags": flags, "scale": scale, "timeout": timeout}
 
@@ -210,7 +210,7 @@ PROPS.update({
         "exhaustive_claim": False,
         "hang_is_violation": True,
         "steps": [MAIN,
-                  miri(mode="miri", nshards=16, flags="-Zmiri-disable-isolation -Zmiri-many-seeds=0..8", tiers=("quick",), timeout=3000),
+                  miri(mode="miri", nshards=16, flags="-Zmiri-disable-isolation -Zmiri-many-seeds=0..8", tiers=("quick",), timeout=1200),
                   dict(miri(mode="miri", nshards=16, flags="-Zmiri-disable-isolation -Zmiri-many-seeds=0..64", tiers=("thorough",), timeout=20000), name="miri"),
                   {"name": "tsan", "flavour": "tsan", "mode": "stress", "tiers": ("thorough",), "scale": 50}],
         "required_buckets": {"all": ["schedule-with-interleaved-calls", "preempted-at:lock", "preempted-at:atomic-load", "preempted-at:unlocked",
